@@ -90,7 +90,9 @@ class Multi(Block):
         for i, step in enumerate(case["steps"]):
             rec = {"error": None, "attr": None, "ret": [], "shapes": None, "rebuilt": None}
             sc = Script(step.get("r", []))
+            ret = None
             try:
+                twin = m.clone() if case.get("twin") else None
                 m = m.clone()                                     # clone-and-mutate
                 with sc:
                     ret = self.call(m, step)
@@ -103,11 +105,15 @@ class Multi(Block):
             except Exception as e:  # noqa
                 rec["desc"] = None
                 rec["error"] = rec["error"] or f"descriptor: {type(e).__name__}: {e}"[:300]
+            if rec["error"] is None and twin is not None:
+                self.twin_replay(twin, rec, ret)
             if rec["error"] is None and every > 0 and (i % every == 0 or i == n - 1):
                 self.observe_full(m, case, rec)
             obs["steps"].append(rec)
             if rec["error"] is not None:
                 break
+        if not any(r["error"] for r in obs["steps"]):
+            self.end_checks(m, obs)
         return obs
 
     def observe_full(self, m, case, rec):
@@ -409,4 +415,183 @@ def gen_cnn3d(tier, rng):
                    (rng.randrange(100), rng.randrange(100))) for _ in range(12 if tier == "quick" else 60)]
         cases.append({"block": "cnn3d", "static": static, "cfg": cfg, "init": {"channels": [8, 8], "kernels": [3, 3], "strides": [1, 1]},
                       "steps": steps, "every": 3, "src": "walk-oracle-only"})
+    return cases, True
+
+
+# ------------------------------------------------------------------ further network configurations: oracle only
+from agilerl.networks.q_networks import RainbowQNetwork  # noqa: E402
+from agilerl.networks.actors import StochasticActor  # noqa: E402
+
+
+def _flat_numbers(d, prefix=""):
+    """numeric leaves of a constructor description (lists of ints included), keyed by their path"""
+    out = {}
+    if isinstance(d, dict):
+        for k, v in d.items():
+            out.update(_flat_numbers(v, f"{prefix}{k}."))
+    elif isinstance(d, (list, tuple)) and d and all(isinstance(x, (int,)) or hasattr(x, "item") and getattr(x, "ndim", 1) == 0 for x in d):
+        out[prefix[:-1]] = [int(x) for x in d]
+    elif isinstance(d, bool):
+        pass
+    elif isinstance(d, int) or (hasattr(d, "item") and getattr(d, "ndim", 1) == 0 and "int" in type(d).__name__):
+        out[prefix[:-1]] = int(d)
+    return out
+
+
+class NetAny(Block):
+    """network classes / encoder choices the modelled `net` block does not build: custom encoder class (ResNet), Rainbow over
+    images, stochastic actor over a Discrete action space, Dict space with a recurrent (LSTM) and a MultiDiscrete member.
+    Steps pick an index into the CURRENTLY advertised methods (so methods that appear after a mutation are exercised too)."""
+    name = "netany"
+    IMG = (3, 16, 16)
+
+    def build(self, case):
+        sp = case["spec"]
+        img = spaces.Box(0, 1, self.IMG)
+        if sp == "resnet-q":
+            return QNetwork(img, spaces.Discrete(3), latent_dim=32, encoder_cls="ResNet",
+                            encoder_config={"input_shape": list(self.IMG), "channel_size": 32, "kernel_size": 3, "stride_size": 1, "num_blocks": 1,
+                                            "min_channel_size": 16, "max_channel_size": 96})
+        if sp == "rainbow-img":
+            return RainbowQNetwork(img, spaces.Discrete(3), support=torch.linspace(0, 1, 5), num_atoms=5, latent_dim=32,
+                                   encoder_config={"channel_size": [16], "kernel_size": [3], "stride_size": [1], "min_channel_size": 8, "max_channel_size": 64, "init_layers": False})
+        if sp == "stoch-discrete":
+            return StochasticActor(spaces.Box(-1, 1, (4,)), spaces.Discrete(3), latent_dim=16)
+        if sp == "stoch-near-max":
+            return StochasticActor(spaces.Box(-1, 1, (4,)), spaces.Box(-1, 1, (2,)), latent_dim=120, max_latent_dim=128, min_latent_dim=8)
+        if sp == "dict-recurrent-q":
+            d = spaces.Dict({"v": spaces.Box(-1, 1, (3,)), "s": spaces.Box(-1, 1, (5, 4)), "d": spaces.MultiDiscrete([2, 3])})
+            return QNetwork(d, spaces.Discrete(3), latent_dim=32, recurrent=True, encoder_config={"recurrent": True, "latent_dim": 16})
+        raise ValueError(sp)
+
+    def make_input(self, case, b):
+        sp = case["spec"]
+        if sp in ("resnet-q", "rainbow-img"):
+            return torch.rand(b, *self.IMG)
+        if sp.startswith("stoch"):
+            return torch.rand(b, 4)
+        oh = torch.cat([torch.nn.functional.one_hot(torch.randint(0, 2, (b,)), 2), torch.nn.functional.one_hot(torch.randint(0, 3, (b,)), 3)], dim=1).float()
+        return {"v": torch.rand(b, 3), "s": torch.rand(b, 5, 4), "d": oh}
+
+    def out_shape(self, case, b):
+        return {"resnet-q": [b, 3], "rainbow-img": [b, 3], "stoch-discrete": [b], "stoch-near-max": [b, 2], "dict-recurrent-q": [b, 3]}[case["spec"]]
+
+    def desc(self, m):
+        d = m.init_dict
+        return _flat_numbers({"latent_dim": d["latent_dim"], "encoder": d["encoder_config"], "head": d["head_config"]})
+
+    def advertised(self, case):
+        return None
+
+    def coq(self, case, obs):
+        return None
+
+    def run(self, case):
+        torch.manual_seed(0)
+        m = self.build(case)
+        obs = {"methods": sorted(m.mutation_methods), "desc0": self.desc(m), "shapes0": [], "steps": [], "chosen": []}
+        every, n = case.get("every", 1), len(case["steps"])
+        for i, step in enumerate(case["steps"]):
+            rec = {"error": None, "attr": None, "ret": [], "shapes": None, "rebuilt": None}
+            sc = Script(step.get("r", []))
+            try:
+                m = m.clone()
+                meths = sorted(m.mutation_methods)
+                name = meths[step["pick"] % len(meths)]
+                obs["chosen"].append(name)
+                with sc:
+                    ret = getattr(m, name)()
+                rec["attr"] = m.last_mutation_attr or ""
+                rec["ret"] = [int(v) for v in ret.values()] if isinstance(ret, dict) else []
+            except Exception as e:  # noqa
+                obs["chosen"].append("?") if len(obs["chosen"]) <= i else None
+                rec["error"] = f"{type(e).__name__}: {e}"[:400]
+            try:
+                rec["desc"] = self.desc(m)
+            except Exception as e:  # noqa
+                rec["desc"] = None
+                rec["error"] = rec["error"] or f"descriptor: {type(e).__name__}: {e}"[:300]
+            if rec["error"] is None and every > 0 and (i % every == 0 or i == n - 1):
+                self.observe(m, case, rec)
+            obs["steps"].append(rec)
+            if rec["error"] is not None:
+                break
+        return obs
+
+    def observe(self, m, case, rec):
+        fw, x3, y3 = [], None, None
+        for b in (1, 2, 3):
+            try:
+                x = self.make_input(case, b)
+                with torch.no_grad():
+                    y = m(copy.copy(x))
+                y = y[0] if isinstance(y, tuple) else y
+                x3, y3 = x, y
+                fw.append({"shape": [int(v) for v in y.shape], "finite": bool(torch.isfinite(y.float()).all())})
+            except Exception as e:  # noqa
+                fw.append({"error": f"{type(e).__name__}: {e}"[:300]})
+        rec["fw"] = fw
+        try:
+            clone = type(m)(**copy.deepcopy(m.init_dict))
+            rec["rebuilt"] = "ok"
+            try:
+                clone.load_state_dict(m.state_dict(), strict=True)
+                rec["load"] = "ok"
+                if not case["spec"].startswith("stoch") and y3 is not None:
+                    with torch.no_grad():
+                        y2 = clone(copy.copy(x3))
+                    rec["same_fn"] = bool(torch.allclose(y2, y3, atol=1e-6))
+            except Exception as e:  # noqa
+                rec["load"] = f"{type(e).__name__}: {e}"[:300]
+            rec["rebuilt_desc_same"] = (self.desc(clone) == self.desc(m))
+        except Exception as e:  # noqa
+            rec["rebuilt"] = f"raised {type(e).__name__}: {e}"[:300]
+            rec["load"] = None
+
+    def oracle(self, case, obs):
+        out = []
+        pre = obs["desc0"]
+        for i, (name, rec) in enumerate(zip(obs["chosen"], obs["steps"])):
+            where = f"{case['spec']} step {i} {name}() draws {case['steps'][i].get('r')} from {pre}"
+            sig = f"netany:{case['spec']}:{name}"
+            if rec["error"] is not None:
+                out.append(Violation("valid", f"{sig}:raised", f"{where}: {rec['error']}")); break
+            post = rec["desc"]
+            # declared bounds: <x> with siblings min_<x>/max_<x> in the same description (latent_dim, and whatever the blocks declare)
+            for k, v in post.items():
+                stem, leaf = k.rsplit(".", 1) if "." in k else ("", k)
+                for lo_k, hi_k in ((f"min_{leaf}", f"max_{leaf}"),):
+                    lo, hi = post.get((stem + "." if stem else "") + lo_k), post.get((stem + "." if stem else "") + hi_k)
+                    if isinstance(v, int) and isinstance(lo, int) and isinstance(hi, int):
+                        pv = pre.get(k)
+                        if isinstance(pv, int) and lo <= pv <= hi and not (lo <= v <= hi):
+                            out.append(Violation("bounds", f"{sig}:bounds:{leaf}", f"{where}: {k}={v} outside [{lo},{hi}]"))
+            if rec["attr"] == "" and not name.endswith("change_kernel"):
+                out.append(Violation("effective", f"{sig}:no-method-applied", f"{where}: no applied method reported, description {post}"))
+            if rec.get("fw") is not None:
+                for b, f in zip((1, 2, 3), rec["fw"]):
+                    if "error" in f or f["shape"] != self.out_shape(case, b) or not f["finite"]:
+                        out.append(Violation("valid", f"{sig}:forward", f"{where}: forward(batch {b}) at {post}: {f}, declared {self.out_shape(case, b)}")); break
+                if rec["rebuilt"] != "ok":
+                    out.append(Violation("rebuild", f"{sig}:ctor-raised", f"{where}: {rec['rebuilt']}"))
+                elif rec.get("load") != "ok":
+                    out.append(Violation("rebuild", f"{sig}:load-state-dict", f"{where}: {rec.get('load')}"))
+                elif rec.get("same_fn") is False:
+                    out.append(Violation("rebuild", f"{sig}:rebuilt-different-function", f"{where}: rebuilt network computes different outputs with the same weights"))
+                elif rec.get("rebuilt_desc_same") is False:
+                    out.append(Violation("rebuild", f"{sig}:ctor-not-fixed-point", f"{where}: rebuilt network reports a different description"))
+            if out:
+                break
+            pre = post
+        return out
+
+
+def gen_netany(tier, rng):
+    cases = []
+    quick = tier == "quick"
+    for sp in ("resnet-q", "rainbow-img", "stoch-discrete", "stoch-near-max", "dict-recurrent-q"):
+        for w in range(1 if quick else 6):
+            steps = [{"m": "advertised[pick]", "pick": rng.randrange(1000), "args": {}, "r": [rng.randrange(100), rng.randrange(100)]}
+                     for _ in range(10 if quick else 40)]
+            cases.append({"block": "netany", "spec": sp, "static": {}, "cfg": {}, "init": {}, "steps": steps, "every": 2, "src": "walk-oracle-only"})
     return cases, True
